@@ -159,3 +159,12 @@ Proof.
   split; [exact to_serde_json_t_no_panic|exact value_to_serde_panics_iff].
 Qed.
 Print Assumptions C19_from_value_agrees_with_to_serde_json.
+
+(* ---- the recursion fuel of the to_serde_json walker (containter_to_serde_json over the payload sub-slices) is never the
+   reason for an answer, on ANY buffer, binary or text (ExtraFuel19.v): every nested item is at least 8 bytes shorter *)
+From JB Require Import ExtraFuel19.
+Theorem C19_fuel_never_exhausted :
+  (forall bs, to_serde_json_w bs <> Err EFuel) /\ (forall bs, to_serde_json_object_w bs <> Err EFuel) /\
+  (forall fuel bs, (length bs < fuel)%nat -> container_to_serde_w fuel bs <> Err EFuel).
+Proof. split; [exact to_serde_json_w_not_fuel|]. split; [exact to_serde_json_object_w_not_fuel|exact container_to_serde_fuel]. Qed.
+Print Assumptions C19_fuel_never_exhausted.
